@@ -19,7 +19,7 @@
 EXTENDS Integers, Sequences, FiniteSets, TLC, VerifIO
 
 CONSTANTS MaxAddrs, EXPORT
-AddrClasses == {"ok", "unk", "empty"}
+AddrClasses == {"ok", "relay", "unk", "empty"}          \* "relay": a decodable address that already contains a /p2p/ component
 Extras == {"none", "small", "atcap"}
 Msgs == [addrs : UNION {[1..n -> AddrClasses] : n \in 0..MaxAddrs}, extra : Extras, orig : BOOLEAN]
 
@@ -89,7 +89,7 @@ TrailingIgnored == (Complete /\ mut.k = "trailing") => (Result.ok /\ Result.m = 
 (* sender transformations on the abstract message *)
 (* each kept address gets /p2p/<id> appended; when addresses were given but none is decodable, libp2p's
    AddrInfoToP2pAddrs yields the bare /p2p/<id> address ("p2ponly")                                   *)
-HttpSend(x) == LET kept == SelectSeq(x.addrs, LAMBDA a : a = "ok") IN
+HttpSend(x) == LET kept == SelectSeq(x.addrs, LAMBDA a : a \in {"ok", "relay"}) IN
                [x EXCEPT !.addrs = IF Len(x.addrs) > 0 /\ kept = <<>> THEN <<"p2ponly">> ELSE kept]
 ExportCase == (Complete /\ EXPORT) => Emit("c10_cases.ndjson", [m |-> m, mut |-> mut, ok |-> Result.ok,
                   out |-> Result.m, http |-> HttpSend(m)])
